@@ -698,3 +698,17 @@ MUTATIONS += [
     # rewrite --dry-run --forget still forgets the original snapshots
     dict(id="C15-rewrite-dry-run-forgets", prop="C15", file="crates/core/src/commands/rewrite.rs", old="    if !snapshots.is_empty() && !opts.dry_run {", new="    if !snapshots.is_empty() && (!opts.dry_run || opts.forget) {"),
 ]
+
+CA13 = "crates/core/src/backend/cache.rs"
+MUTATIONS += [
+    # the cache entry is written directly under its real name (a failed write leaves a truncated entry)
+    dict(id="C19-cache-write-without-tmp", prop="C19", file=CA13, old="        match write_local_file(&filename_tmp, content.clone().reader()) {", new="        match write_local_file(&filename, content.clone().reader()) {"),
+    # the temporary file is not cleaned up... and renamed anyway on error
+    dict(id="C19-cache-write-renames-after-error", prop="C19", file=CA13, old="                _ = fs::remove_file(&filename_tmp);\n                return Err(err);", new="                _ = fs::rename(&filename_tmp, &filename);\n                return Err(err);"),
+    # Cache::remove removes the entry of the same id under another file type
+    dict(id="C19-cache-remove-wrong-type", prop="C19", file=CA13, old="        trace!(\"cache writing tpe: {tpe:?}, id: {id}\");\n        let filename = self.path(tpe, id);\n        fs::remove_file(&filename)", new="        trace!(\"cache writing tpe: {tpe:?}, id: {id}\");\n        let filename = self.path(FileType::Pack, id);\n        fs::remove_file(&filename)"),
+]
+HARMLESS += [
+    # file name computed before the directory is created
+    dict(id="H-C19-cache-write-name-first", prop="C19", file=CA13, old="        let filename = self.path(tpe, id);\n        let filename_tmp = dir.join(id.to_hex().to_string() + \"-tmp-\");", new="        let filename_tmp = dir.join(id.to_hex().to_string() + \"-tmp-\");\n        let filename = self.path(tpe, id);"),
+]
